@@ -39,6 +39,13 @@ def disp(tier, pol="block", cap=1, name=None):
               red_script=rs, max_tasks=2)
 
 
+def chain_reg(tier):
+    """a reducer added at run time while actions flow: from then on it is part of every chain"""
+    progs = [{"c1": [D(1), D(2), O("stop"), O("get_state")], "c2": [S("add_reducer", "r2")]}]
+    return _i("chain_reg", progs, {1: 0, 2: 1}, cap=2, red_script={"r1": {0: red("D"), 1: red("K")}, "r2": {0: red("D"), 1: red("D")}},
+              fine_reg=True)
+
+
 def order(tier, pol, cap=1):
     """order of dispatches incl. a follow-up action (Effect::Action) and, in the thorough tier, a thunk"""
     rs = {"r1": {0: red("D"), 1: red("D", eff("act", 9))}}
@@ -133,14 +140,23 @@ def readers(tier):
               reducers=("r1", "r2"))
 
 
-def life(tier, kind="direct", pol="block"):
+def life(tier, kind="direct", pol="block", dpol="block", dcap=2):
     """subscribe / unsubscribe (twice) racing dispatches and a stop"""
     reg = {"direct": "add_sub", "sel": "add_sub", "chan": "subscribed"}[kind]
     acts = {1: 1, 2: 0, 3: 1} if kind != "sel" else {1: 1, 2: 0, 3: 0}
     progs = [{"c1": [S("add_sub", "s2"), S(reg, "s1"), S("unsub", "s1"), S("unsub", "s1")],
               "c2": [D(1), D(2)] + ([D(3)] if tier != "quick" else []) + STOP}]
-    return _i("life_%s_%s" % (kind, pol), progs, acts, cap=2,
+    return _i("life_%s_%s%s" % (kind, pol, "" if dpol == "block" else "_d" + dpol), progs, acts, cap=dcap, pol=dpol,
               subs={"s1": {"kind": kind, "cap": 1, "pol": pol}, "s2": {"kind": "direct"}})
+
+
+def dup_sub(tier):
+    """the same subscriber object registered twice in one store: called twice for every action, and the
+    first unsubscribe() removes and releases both registrations (retain() by pointer identity)"""
+    sh = dict(S("add_sub", "s1"), via="shared")
+    progs = [{"c1": [S("add_sub", "s2"), sh, sh, S("unsub", "s1"), S("unsub", "s1")],
+              "c2": [D(1), D(2)] + STOP}]
+    return _i("dup_sub", progs, {1: 0, 2: 0}, cap=2, subs={"s1": {"kind": "direct"}, "s2": {"kind": "direct"}})
 
 
 def chan(tier, pol="block", cap=1, unsub=True):
@@ -200,6 +216,15 @@ def middleware(tier, n=2):
     return _i("mw%d" % n, progs, {1: 0, 2: 1}, cap=2, mws=mws, mw_script=ms, mw_verdicts=("C", "D", "B", "E"),
               mw_remove={"m1": {0: "first"}}, reducers=("r1", "r2"), red_script=rs, subs={"s1": {"kind": "direct"}},
               max_tasks=4)
+
+
+def subs_mw(tier):
+    """direct subscribers behind two middlewares whose before_dispatch hooks take every verdict:
+    an action is delivered iff no hook up to the first BreakChain said DoneAction last"""
+    star = {"before_dispatch": {0: "*", 1: "C"}}
+    progs = [{"c1": [S("add_sub", "s1"), S("add_sub", "s2"), D(1), D(2)] + ([D(3)] if tier != "quick" else []) + STOP}]
+    return _i("subs_mw", progs, {1: 0, 2: 1, 3: 0}, cap=2, mws=("m1", "m2"), mw_script={"m1": star, "m2": star},
+              mw_verdicts=("C", "D", "B", "E"), subs={"s1": {"kind": "direct"}, "s2": {"kind": "direct"}})
 
 
 def iterator(tier, drop=False):
@@ -364,6 +389,8 @@ def bigger(inst, k, cap=None):
                 if o["op"] == "unsub":
                     continue        # subscriptions stay until the store stops: the scaled-up runs are about backlog
                 out.append(o)
+                if o["op"] == "get_state":
+                    out.extend([o] * (k - 1))
                 if o["op"] == "dispatch":
                     for _ in range(k - 1):
                         nxt += 1
@@ -387,7 +414,7 @@ def bigger(inst, k, cap=None):
     b = dict(inst)
     b.update(name=inst["name"] + "_x%d%s" % (k, "c%d" % cap if cap else ""), programs=progs, acts=acts,
              cap=cap or inst["cap"], max_tasks=inst["max_tasks"] * k + 2,
-             slow_reduce_us=400 if cap else 0, slow_deliver_us=3000 if cap else 0)
+             slow_reduce_us=400 if cap else 0, slow_deliver_us=3000 if cap else 0, slow_clone_us=40 if cap else 0)
     if cap:     # larger subscriber channels as well (iterators keep their capacity of 1)
         b["subs"] = {s_: (dict(c, cap=cap) if c["kind"] == "chan" else c) for s_, c in inst["subs"].items()}
     return b
@@ -404,10 +431,10 @@ def table(pid, tier):
     q = tier == "quick"
     T = {}
     if pid == "C01":
-        a, b = disp(tier, "block", 1), disp(tier, "block", 2)
-        inv = ["C01_Fold", "C01_ExactlyOnce", "C01_Threaded", "C02_ReduceOrder", "C08_Valid"]
-        T = dict(mc=[(a, inv, ["C01_FinalAfterStop"])] + ([] if q else [(b, inv, ["C01_FinalAfterStop"])]),
-                 gen=[(a, 1500 if q else 20000)], free=[(b, 150 if q else 1500)])
+        a, b, c = disp(tier, "block", 1), disp(tier, "block", 2), chain_reg(tier)
+        inv = ["C01_Fold", "C01_ExactlyOnce", "C01_Threaded", "C02_ReduceOrder", "C08_Valid", "C07_Registered"]
+        T = dict(mc=[(a, inv, ["C01_FinalAfterStop"]), (c, inv, [])] + ([] if q else [(b, inv, ["C01_FinalAfterStop"])]),
+                 gen=[(a, 1000 if q else 20000), (c, 500 if q else 20000)], free=[(b, 150 if q else 1500), (c, 60 if q else 600)])
     elif pid == "C02":
         insts = [order(tier, p) for p in ("block", "oldest", "latest")] + [deep_queue("oldest"), deep_queue("latest"),
                                                                           mw_dispatch("block")]
@@ -415,11 +442,12 @@ def table(pid, tier):
         T = dict(mc=[(i, inv, []) for i in insts], gen=[(i, 350 if q else 10000) for i in insts],
                  free=[(i, 40 if q else 600) for i in insts])
     elif pid == "C03":
-        a, b = subs_direct(tier), subs_unsub(tier)
+        a, b, c = subs_direct(tier), subs_unsub(tier), subs_mw(tier)
         inv = ["C03_OnlyDispatch", "C03_EveryDispatch", "C03_StateAndOrder", "C03_Stream", "C07_DirectOnReducer",
                "C09_Notified"]
-        T = dict(mc=[(a, inv, []), (b, inv, [])], gen=[(a, 800 if q else 20000), (b, 800 if q else 20000)],
-                 free=[(a, 100 if q else 1500), (b, 100 if q else 1500)])
+        T = dict(mc=[(a, inv, []), (b, inv, []), (c, inv, [])],
+                 gen=[(a, 800 if q else 20000), (b, 800 if q else 20000), (c, 300 if q else 20000)],
+                 free=[(a, 100 if q else 1500), (b, 100 if q else 1500), (c, 40 if q else 500)])
     elif pid == "C04":
         vs = [0, 1, 6] if q else [0, 1, 2, 6]
         insts = [stop_race(tier, "block", v) for v in vs] + [stop_race(tier, "latest", 0)] + \
@@ -450,10 +478,14 @@ def table(pid, tier):
         inv = ["C08_Published", "C08_Valid", "C01_Fold"]
         T = dict(mc=[(a, inv, ["C08_Monotone"])], gen=[(a, 1500 if q else 20000)], free=[(a, 150 if q else 1500)])
     elif pid == "C09":
-        insts = [life(tier, "direct"), life(tier, "chan")] + ([] if q else [life(tier, "sel"), life(tier, "chan", "oldest")])
+        insts = [life(tier, "direct"), life(tier, "chan"), life(tier, "direct", "block", "latest", 1)] + \
+            ([] if q else [life(tier, "sel"), life(tier, "chan", "oldest"), life(tier, "chan", "block", "oldest", 1)])
         inv = ["C09_Notified", "C09_SilentAfter", "C09_SilentAfter_strict", "C09_ReleasedAtMostOnce", "C09_Released", "C03_Stream"]
-        T = dict(mc=[(i, inv, []) for i in insts], gen=[(i, 900 if q else 10000) for i in insts[:2]],
-                 free=[(i, 80 if q else 500) for i in insts],
+        dup = dup_sub(tier)
+        dinv = ["C09_Notified", "C09_SilentAfter", "C09_ReleasedAtMostOnce", "C09_Released", "C09_DupStream"]
+        T = dict(mc=[(i, inv, []) for i in insts] + [(dup, dinv, [])],
+                 gen=[(i, 600 if q else 10000) for i in insts[:3]] + [(dup, 300 if q else 10000)],
+                 free=[(i, 60 if q else 500) for i in insts] + [(dup, 40 if q else 500)],
                  strict=[])
     elif pid == "C10":
         insts = [chan(tier, "block", 1, True), chan(tier, "oldest", 1, False), chan_default(tier)] + \
